@@ -213,8 +213,14 @@ impl Ctx {
         CUR_SUB.store(u64::MAX, Ordering::SeqCst);
         CUR_CASE.store(i, Ordering::SeqCst);
         CASE_START_MS.store(now_ms(), Ordering::SeqCst);
+        let t_item = Instant::now();
         let r = catch_unwind(AssertUnwindSafe(|| body(self)));
         CASE_START_MS.store(0, Ordering::SeqCst);
+        let ms = t_item.elapsed().as_millis() as i64;
+        self.max("item_ms_max", ms);
+        if ms > 5000 {
+            self.note(format!("slow item ({ms} ms): {}", desc()));
+        }
         let out = match r {
             Ok(v) => Some(v),
             Err(_) => {
